@@ -146,6 +146,8 @@ func main() {
 	}
 	stdouts = append(stdouts,
 		stdoutV{"wrong-name", false, func(string) string { return metaJSON("someone-else", "", "1.0") }, 0},
+		stdoutV{"wrong-name-letter-case", false, func(string) string { return metaJSON(strings.ToUpper(name[:1])+name[1:], "", "1.0") }, 0},
+		stdoutV{"wrong-name-trailing-blank", false, func(string) string { return metaJSON(name+" ", "", "1.0") }, 0},
 		stdoutV{"wrong-contract", false, func(string) string { return metaJSON(name, "", "2.0") }, 0},
 		stdoutV{"wrong-contract-same-major", false, func(string) string { return metaJSON(name, "", "1.1") }, 0},
 		stdoutV{"wrong-contract-major-only", false, func(string) string { return metaJSON(name, "", "1") }, 0},
@@ -175,6 +177,11 @@ func main() {
 	for _, c := range errCodes {
 		stderrs = append(stderrs, stderrV{"structured:" + c, fmt.Sprintf(`{"errorCode":%q,"errorMessage":"scripted %s message","errorMetadata":{"k":"v"}}`, c, c), 0})
 	}
+	// the same structured errors pretty-printed over several lines (a plugin written in a language whose JSON encoder
+	// indents by default): still the plugin's own structured error
+	for _, c := range errCodes[:2] {
+		stderrs = append(stderrs, stderrV{"structured:" + c, fmt.Sprintf("{\n  \"errorCode\": %q,\n  \"errorMessage\": \"scripted %s message\",\n  \"errorMetadata\": {\n    \"k\": \"v\"\n  }\n}\n", c, c), 0})
+	}
 	type timingV struct {
 		name string
 		set  func(b *behavior)
@@ -191,7 +198,7 @@ func main() {
 
 	var cases []caseT
 	add := func(cmd string, so stdoutV, se stderrV, exit int, tm timingV, ctx string) {
-		if strings.HasPrefix(so.class, "missing:") || so.class == "wrong-name" || strings.HasPrefix(so.class, "wrong-contract") {
+		if strings.HasPrefix(so.class, "missing:") || strings.HasPrefix(so.class, "wrong-name") || strings.HasPrefix(so.class, "wrong-contract") {
 			if cmd != "get-plugin-metadata" {
 				return
 			}
@@ -369,7 +376,7 @@ func main() {
 			}
 		}
 		if !failed && !c.ValidReply && !res.OK && c.Timing == "immediate" && !c.Big && c.ReplyClass != "null" {
-			if res.ErrType != "malformed" && !(c.ReplyClass == "wrong-name" && res.ErrType == "other") {
+			if res.ErrType != "malformed" && !(strings.HasPrefix(c.ReplyClass, "wrong-name") && res.ErrType == "other") {
 				r.Violation(sig("untyped-error"), fmt.Sprintf("%s: a malformed reply must yield PluginMalformedError, got %s %q", c.ID, res.ErrType, res.ErrMsg), wit)
 			}
 		}
